@@ -359,8 +359,9 @@ func cliFiles(c *fw.Ctx, r *fw.Rand, cs []tcue) (in, out string, unit int64, des
 	for i := range cs {
 		cs[i].S, cs[i].E = cs[i].S/fi.unit*fi.unit, cs[i].E/fi.unit*fi.unit
 	}
-	in = filepath.Join(c.TmpDir(), "in."+ei)
-	out = filepath.Join(c.TmpDir(), "out."+eo)
+	// file names as they come: blanks, commas, brackets, a percent sign, letters beyond ASCII
+	in = filepath.Join(c.TmpDir(), fw.Pick(r, []string{"in", "in", "The Good, the Bad [en] 100%", "Épisode 1 (v2)", "a*b?c"})+"."+ei)
+	out = filepath.Join(c.TmpDir(), fw.Pick(r, []string{"out", "out", "seg_%03d, [final]", "été 50% off"})+"."+eo)
 	os.WriteFile(in, []byte(fi.doc(cs)), 0o644)
 	out = outPath(r, in, out)
 	if out == in {
